@@ -847,3 +847,338 @@ def propagate_new_constants(tree: ast.Module, keep=frozenset()) -> int:
 
     T().visit(tree)
     return len(consts)
+
+
+# ---------------------------------------------------------------------------------------------------------------------
+# (xiii) Renamed locals.  The rules name some locals of the confirmed tree (`preprocess`, `batch`, `fut`, ...), and the
+# normalisations above treat a local the confirmed tree does not have as *new*.  A consistent renaming of a local is the
+# commonest behaviour-preserving edit there is, and it must change nothing.  For every outermost function (nested
+# functions share its variables) anchors.json records the locals in order of first occurrence and a digest of the
+# function with the locals abstracted to their index.  Equal digest = the same function up to a bijective renaming of
+# its locals (a renamed local that captures another name changes the digest), and the recorded names are put back.
+# When the function changed in other ways too, a local is put back only if exactly one vanished and one new local have
+# the same defining statements (locals abstracted) and the same number of reads.
+
+
+def _local_occurrences(fn):
+    """(stored local names, list of occurrence records in source order); a record is (node, field) with field 'id' for a
+    Name, 'name' for an ExceptHandler, or an index into Nonlocal.names"""
+    params = {a.arg for a in ast.walk(fn) if isinstance(a, ast.arg)}
+    globs = {nm for g in ast.walk(fn) if isinstance(g, ast.Global) for nm in g.names}
+    inner = {x.name for x in ast.walk(fn) if isinstance(x, (ast.FunctionDef, ast.AsyncFunctionDef, ast.ClassDef)) and x is not fn}
+    imported = {(a.asname or a.name).split('.')[0] for x in ast.walk(fn) if isinstance(x, (ast.Import, ast.ImportFrom)) for a in x.names}
+    stored = {x.id for x in ast.walk(fn) if isinstance(x, ast.Name) and isinstance(x.ctx, (ast.Store, ast.Del))}
+    stored |= {h.name for h in ast.walk(fn) if isinstance(h, ast.ExceptHandler) and h.name}
+    stored -= params | globs | inner | imported
+    occ = []
+
+    def visit(n):
+        if isinstance(n, ast.Name):
+            if n.id in stored:
+                occ.append((n, 'id'))
+            return
+        if isinstance(n, ast.ExceptHandler):
+            if n.type is not None:
+                visit(n.type)
+            if n.name and n.name in stored:
+                occ.append((n, 'name'))
+            for b in n.body:
+                visit(b)
+            return
+        if isinstance(n, ast.Nonlocal):
+            for i, nm in enumerate(n.names):
+                if nm in stored:
+                    occ.append((n, i))
+            return
+        # evaluation order differs from field order for assignments and comprehensions only in ways that are the same
+        # in both trees: field order is deterministic, which is all that is needed
+        for c in ast.iter_child_nodes(n):
+            visit(c)
+
+    visit(fn)
+    return stored, occ
+
+
+def _get(rec):
+    n, f = rec
+    return n.id if f == 'id' else (n.name if f == 'name' else n.names[f])
+
+
+def _set(rec, v):
+    n, f = rec
+    if f == 'id':
+        n.id = v
+    elif f == 'name':
+        n.name = v
+    else:
+        n.names[f] = v
+
+
+def local_skeleton(fn) -> dict:
+    """{'order': locals in order of first occurrence, 'digest': of the function with locals abstracted, 'sigs': per local}"""
+    import hashlib
+
+    stored, occ = _local_occurrences(fn)
+    order = []
+    for r in occ:
+        v = _get(r)
+        if v not in order:
+            order.append(v)
+    saved = [_get(r) for r in occ]
+    name = fn.name
+    try:
+        # per-local signature: the statements that store it, with every local abstracted to `_`, and its number of reads
+        fn.name = '_'
+        sigs = {}
+        defs: dict = {}
+        loads: dict = {}
+        for st in ast.walk(fn):
+            tg = []
+            if isinstance(st, ast.Assign):
+                tg = [x for t in st.targets for x in ast.walk(t) if isinstance(x, ast.Name) and isinstance(x.ctx, ast.Store)]
+            elif isinstance(st, (ast.AugAssign, ast.NamedExpr)):
+                tg = [st.target] if isinstance(st.target, ast.Name) else []
+            elif isinstance(st, (ast.For, ast.AsyncFor, ast.comprehension)):
+                tg = [x for x in ast.walk(st.target) if isinstance(x, ast.Name)]
+            elif isinstance(st, (ast.With, ast.AsyncWith)):
+                tg = [x for it in st.items if it.optional_vars is not None for x in ast.walk(it.optional_vars) if isinstance(x, ast.Name)]
+            for x in tg:
+                if x.id in stored:
+                    defs.setdefault(x.id, []).append(st)
+            if isinstance(st, ast.ExceptHandler) and st.name in stored:
+                defs.setdefault(st.name, []).append(st.type if st.type is not None else st)
+        for n_ in ast.walk(fn):
+            if isinstance(n_, ast.Name) and isinstance(n_.ctx, ast.Load) and n_.id in stored:
+                loads[n_.id] = loads.get(n_.id, 0) + 1
+        for r in occ:
+            _set(r, '_')
+        for v in order:
+            texts = []
+            for st in defs.get(v, ()):
+                if isinstance(st, (ast.For, ast.AsyncFor)):
+                    texts.append('for ' + ast.dump(st.target) + ' in ' + ast.dump(st.iter))
+                elif isinstance(st, (ast.With, ast.AsyncWith)):
+                    texts.append('with ' + ';'.join(ast.dump(it) for it in st.items))
+                else:
+                    texts.append(ast.dump(st))
+            sigs[v] = hashlib.sha256(('|'.join(sorted(texts)) + f'#{loads.get(v, 0)}').encode()).hexdigest()[:16]
+        # digest with the locals abstracted to their index
+        for r, v in zip(occ, saved):
+            _set(r, f'_L{order.index(v)}')
+        digest = hashlib.sha256(ast.dump(fn).encode()).hexdigest()[:24]
+    finally:
+        for r, v in zip(occ, saved):
+            _set(r, v)
+        fn.name = name
+    return {'order': order, 'digest': digest, 'sigs': sigs}
+
+
+def restore_local_names(fn, ref: dict) -> list:
+    """put the recorded names of renamed locals back; returns [(current, recorded)]"""
+    cur = local_skeleton(fn)
+    mapping = {}
+    if cur['digest'] == ref['digest'] and len(cur['order']) == len(ref['order']):
+        mapping = {c: r for c, r in zip(cur['order'], ref['order']) if c != r}
+    else:
+        new = [v for v in cur['order'] if v not in ref['order']]
+        gone = [v for v in ref['order'] if v not in cur['order']]
+        for v in new:
+            cands = [g for g in gone if ref['sigs'].get(g) == cur['sigs'].get(v)]
+            twins = [w for w in new if cur['sigs'].get(w) == cur['sigs'].get(v)]
+            if len(cands) == 1 and len(twins) == 1 and len([g for g in gone if ref['sigs'].get(g) == ref['sigs'].get(cands[0])]) == 1:
+                mapping[v] = cands[0]
+    if not mapping:
+        return []
+    # a recorded name that is in use for something else in the current function (a swap, a capture) cannot be put back
+    # one at a time: apply only when the images are free or are themselves being renamed away
+    stored, occ = _local_occurrences(fn)
+    used = {x.id for x in ast.walk(fn) if isinstance(x, ast.Name)} | {a.arg for a in ast.walk(fn) if isinstance(a, ast.arg)}
+    for c, r in list(mapping.items()):
+        if r in used and r not in mapping:
+            del mapping[c]
+    if not mapping:
+        return []
+    for rec in occ:
+        v = _get(rec)
+        if v in mapping:
+            _set(rec, mapping[v])
+    return sorted(mapping.items())
+
+
+# ---------------------------------------------------------------------------------------------------------------------
+# (xiv) Renamed attributes.  The rules name attributes of the confirmed tree (`_q_in`, `_future_`, `_workers`, ...).  An
+# attribute renamed consistently across the package changes nothing.  anchors.json records, per module and attribute
+# name, a signature: the statements that store it (the attribute itself abstracted), and how often it is read, stored
+# and deleted in which function.  A name that occurs nowhere in the confirmed package (new) is read as a name that
+# occurs nowhere in the current package (gone) when both occur in the same modules with the same signature in each, and
+# no other new / gone name has these signatures.  Method names are not touched (renamed functions are reconciled by
+# body fingerprints, mpsa/anchors.py).
+
+
+def attribute_signatures(tree: ast.Module) -> dict:
+    """{attr: signature} for every attribute name that is read or written through `<expr>.attr` in the module"""
+    import hashlib
+
+    occ: dict = {}
+    stores: dict = {}
+    first: dict = {}
+    own: dict = {}
+    defs = {x.name for x in ast.walk(tree) if isinstance(x, (ast.FunctionDef, ast.AsyncFunctionDef, ast.ClassDef))}
+
+    def visit(n, fn):
+        if isinstance(n, (ast.FunctionDef, ast.AsyncFunctionDef, ast.ClassDef)):
+            fn = fn + '.' + n.name
+        if isinstance(n, ast.Attribute):
+            occ.setdefault(n.attr, []).append((fn, type(n.ctx).__name__))
+            first.setdefault(n.attr, (getattr(n, 'lineno', 0), getattr(n, 'col_offset', 0)))
+        if isinstance(n, (ast.Assign, ast.AugAssign, ast.AnnAssign)):
+            tg = n.targets if isinstance(n, ast.Assign) else [n.target]
+            for t in tg:
+                for x in ast.walk(t):
+                    if isinstance(x, ast.Attribute) and isinstance(x.ctx, ast.Store):
+                        stores.setdefault(x.attr, []).append(n)
+        for c in ast.iter_child_nodes(n):
+            visit(c, fn)
+
+    visit(tree, '')
+    out = {}
+    for a, oc in occ.items():
+        if a in defs:
+            continue
+        # only attributes the package itself defines can be renamed in it: private names with a store through `self`
+        # (`reader.readexactly` -> `reader.read`, `time.perf_counter` -> `time.time`, `logging.DEBUG` -> `logging.INFO` are
+        # not renames)
+        if not (a.startswith('_') and not a.startswith('__')):
+            continue
+        if not any(isinstance(x, ast.Attribute) and x.attr == a and isinstance(x.ctx, ast.Store) and isinstance(x.value, ast.Name) and x.value.id == 'self' for st in stores.get(a, ()) for x in ast.walk(st)):
+            own_store = False
+        else:
+            own_store = True
+        own[a] = own_store
+        texts = []
+        for st in stores.get(a, ()):
+            # the attribute itself is abstracted, and so is every other private attribute in the statement (several
+            # attributes may have been renamed at once)
+            nodes = [(x, x.attr) for x in ast.walk(st) if isinstance(x, ast.Attribute) and (x.attr == a or (x.attr.startswith('_') and not x.attr.startswith('__')))]
+            for x, v in nodes:
+                x.attr = '_A_' if v == a else '_'
+            texts.append(ast.dump(st))
+            for x, v in nodes:
+                x.attr = v
+        out[a] = hashlib.sha256(('|'.join(sorted(texts)) + '#' + ';'.join(f'{f}:{c}' for f, c in sorted(oc))).encode()).hexdigest()[:16]
+    # rank of the first occurrence among the attributes of the module (tie-break between attributes with one signature,
+    # e.g. the two conditions of a queue)
+    rank = {a: i for i, a in enumerate(sorted(out, key=lambda a: first[a]))}
+    return {a: [sig, rank[a], own[a]] for a, sig in out.items()}
+
+
+def attribute_renames(cur: dict, ref: dict) -> dict:
+    """cur / ref: {module rel: {attr: signature}}; returns {new name: recorded name} for pure package-wide renames"""
+    cur_names = {a for m in cur.values() for a in m}
+    ref_names = {a for m in ref.values() for a in m}
+    new, gone = cur_names - ref_names, ref_names - cur_names
+
+    def profile(name, table):
+        return tuple(sorted((rel, sigs[name][0]) for rel, sigs in table.items() if name in sigs))
+
+    def position(name, table):
+        return tuple(sorted((rel, sigs[name][1]) for rel, sigs in table.items() if name in sigs))
+
+    pn = {a: profile(a, cur) for a in new}
+    pg = {a: profile(a, ref) for a in gone}
+
+    def defined(name, table):
+        return any(name in sigs and len(sigs[name]) > 2 and sigs[name][2] for sigs in table.values())
+
+    # the attribute is stored through `self` in at least one module of the package, before and after
+    pn = {a: p for a, p in pn.items() if defined(a, cur)}
+    pg = {a: p for a, p in pg.items() if defined(a, ref)}
+    out = {}
+    for p in set(pn.values()):
+        ns = sorted((a for a in pn if pn[a] == p), key=lambda a: position(a, cur))
+        gs = sorted((g for g in pg if pg[g] == p), key=lambda g: position(g, ref))
+        if len(ns) == len(gs):
+            # several attributes with one signature (two conditions over one lock): paired in order of first occurrence
+            out.update(zip(ns, gs))
+    return out
+
+
+def rename_attributes(tree: ast.Module, mapping: dict) -> int:
+    k = 0
+    for x in ast.walk(tree):
+        if isinstance(x, ast.Attribute) and x.attr in mapping:
+            x.attr = mapping[x.attr]
+            k += 1
+    return k
+
+
+# ---------------------------------------------------------------------------------------------------------------------
+# (xv) Renamed classes.  A class of the confirmed tree that is gone, and a class the confirmed tree does not have, in the
+# same module, with the same bases, the same methods in the same order and the same class-level names, one of each: the
+# new name is read as the recorded one wherever it occurs in the package (names, attributes, imports).
+
+
+def class_signatures(tree: ast.Module) -> dict:
+    out = {}
+    for c in ast.walk(tree):
+        if isinstance(c, ast.ClassDef):
+            bases = [ast.dump(b) for b in c.bases]
+            members = [x.name if isinstance(x, (ast.FunctionDef, ast.AsyncFunctionDef, ast.ClassDef)) else type(x).__name__ for x in c.body]
+            out[c.name] = [bases, members]
+    return out
+
+
+def class_renames(cur: dict, ref: dict, cur_words: set, ref_words: set) -> dict:
+    """cur / ref: {module rel: {class: signature}}; *_words: every identifier of the package.  {new: recorded}"""
+    out = {}
+    for rel, rc in ref.items():
+        cc = cur.get(rel)
+        if cc is None:
+            continue
+        gone = [c for c in rc if c not in cc and c not in cur_words]
+        new = [c for c in cc if c not in rc and c not in ref_words]
+        for n in new:
+            cands = [g for g in gone if rc[g] == cc[n]]
+            if len(cands) == 1 and sum(1 for m in new if cc[m] == cc[n]) == 1:
+                out[n] = cands[0]
+    return out
+
+
+def identifiers(tree: ast.Module) -> set:
+    w = set()
+    for x in ast.walk(tree):
+        if isinstance(x, ast.Name):
+            w.add(x.id)
+        elif isinstance(x, ast.Attribute):
+            w.add(x.attr)
+        elif isinstance(x, (ast.FunctionDef, ast.AsyncFunctionDef, ast.ClassDef)):
+            w.add(x.name)
+        elif isinstance(x, ast.alias):
+            w.add(x.name.split('.')[-1])
+            if x.asname:
+                w.add(x.asname)
+        elif isinstance(x, ast.arg):
+            w.add(x.arg)
+    return w
+
+
+def rename_classes(tree: ast.Module, mapping: dict) -> int:
+    k = 0
+    for x in ast.walk(tree):
+        if isinstance(x, ast.Name) and x.id in mapping:
+            x.id = mapping[x.id]
+            k += 1
+        elif isinstance(x, ast.Attribute) and x.attr in mapping:
+            x.attr = mapping[x.attr]
+            k += 1
+        elif isinstance(x, ast.ClassDef) and x.name in mapping:
+            x.name = mapping[x.name]
+            k += 1
+        elif isinstance(x, ast.alias):
+            if x.name in mapping:
+                x.name = mapping[x.name]
+                k += 1
+            if x.asname in mapping:
+                x.asname = mapping[x.asname]
+                k += 1
+    return k
